@@ -27,20 +27,26 @@ Section Winner.
   Definition beats (b : bool) (x sentinel : A) : Prop :=
     if b then ltb sentinel x = false else ltb x sentinel = true.
 
-  Record gtree_ok {GT : Type} (gt_init : bool -> list (option A) -> GT) (gt_min : GT -> nat)
+  (** [gsize n]: side condition on the number of players under which the tree is specified (the real trees:
+      1 <= n <= 2^30, Source = uint32_t arithmetic must not wrap; the reference tournament: none). *)
+  Record gtree_ok {GT : Type} (gsize : nat -> Prop) (gt_init : bool -> list (option A) -> GT) (gt_min : GT -> nat)
          (gt_dmi : GT -> option A -> GT) (grep : bool -> GT -> list (option A) -> Prop) : Prop := {
-    g_init : forall b hs, grep b (gt_init b hs) hs;
+    g_init : forall b hs, gsize (length hs) -> grep b (gt_init b hs) hs;
     g_min : forall b t hs, grep b t hs -> (exists s x, nth_error hs s = Some (Some x)) -> winner b hs (gt_min t);
     g_dmi : forall b t hs v, grep b t hs -> (exists s x, nth_error hs s = Some (Some x)) ->
                              grep b (gt_dmi t v) (upd (gt_min t) v hs)
   }.
 
-  Record utree_ok {UT : Type} (ut_init : bool -> A -> list A -> UT) (ut_min : UT -> option nat)
+  (** [usize]: as [gsize]; [ukey sen x]: side condition on every key [x] handed to an unguarded tree built with
+      padding key [sen] (C09's theorems about the real unguarded trees: [ltb sen x = false], the documented
+      "sentinel not less than any key"; the reference tournament: none). *)
+  Record utree_ok {UT : Type} (usize : nat -> Prop) (ukey : A -> A -> Prop)
+         (ut_init : bool -> A -> list A -> UT) (ut_min : UT -> option nat)
          (ut_dmi : UT -> A -> UT) (urep : bool -> UT -> A -> list A -> Prop) : Prop := {
-    u_init : forall b sen hs, urep b (ut_init b sen hs) sen hs;
+    u_init : forall b sen hs, usize (length hs) -> Forall (ukey sen) hs -> urep b (ut_init b sen hs) sen hs;
     u_min : forall b t sen hs, urep b t sen hs -> (exists s x, nth_error hs s = Some x /\ beats b x sen) ->
                                exists s, ut_min t = Some s /\ winner b (map Some hs) s;
-    u_dmi : forall b t sen hs v s, urep b t sen hs -> ut_min t = Some s -> urep b (ut_dmi t v) sen (upd s v hs)
+    u_dmi : forall b t sen hs v s, urep b t sen hs -> ut_min t = Some s -> ukey sen v -> urep b (ut_dmi t v) sen (upd s v hs)
   }.
 End Winner.
 
@@ -88,7 +94,8 @@ Section Loops.
     Variable gt_min : GT -> nat.
     Variable gt_dmi : GT -> option A -> GT.
     Variable grep : bool -> GT -> list (option A) -> Prop.
-    Hypothesis Hok : gtree_ok ltb gt_init gt_min gt_dmi grep.
+    Variable gsize : nat -> Prop.
+    Hypothesis Hok : gtree_ok ltb gsize gt_init gt_min gt_dmi grep.
 
     Lemma gt_loop_correct b n : forall t src (st : state) hs,
       grep b t hs -> gt_min t = src -> (exists s x, nth_error hs s = Some (Some x)) ->
@@ -101,9 +108,9 @@ Section Loops.
       - cbn [gt_loop]. subst src.
         set (t1 := gt_dmi t (hd_error (nth (gt_min t) st []))).
         assert (Hrep1 : grep b t1 (heads st)).
-        { rewrite Hh. apply (g_dmi _ _ _ _ _ Hok); auto. }
+        { rewrite Hh. apply (g_dmi _ _ _ _ _ _ Hok); auto. }
         assert (Hlive1 : exists s x, nth_error (heads st) s = Some (Some x)) by (apply live_of_total; lia).
-        pose proof (g_min _ _ _ _ _ Hok _ _ _ Hrep1 Hlive1) as W.
+        pose proof (g_min _ _ _ _ _ _ Hok _ _ _ Hrep1 Hlive1) as W.
         destruct (winner_mstep _ _ _ W) as (x & r & Hx & MS).
         unfold take_from. rewrite Hx.
         pose proof (total_upd _ _ _ _ Hx) as Tot.
@@ -117,14 +124,16 @@ Section Loops.
 
     (** multiway_merge_loser_tree: min(size, total) steps of a (stable, for a stable tree) merge. *)
     Theorem merge_lt_correct b (st : state) sz :
+      gsize (length st) ->
       exists o st', merge_lt GT gt_init gt_min gt_dmi b st sz = Some (o, st') /\ mrun b st o st' /\
                     length o = Nat.min sz (total st).
     Proof.
-      unfold merge_lt. destruct (Nat.min sz (total st)) as [|n] eqn:En.
+      intros Hgs. unfold merge_lt. destruct (Nat.min sz (total st)) as [|n] eqn:En.
       - exists [], st. split; [reflexivity|]. split; [constructor|reflexivity].
-      - assert (Hrep : grep b (gt_init b (heads st)) (heads st)) by apply (g_init _ _ _ _ _ Hok).
+      - assert (Hrep : grep b (gt_init b (heads st)) (heads st)).
+        { apply (g_init _ _ _ _ _ _ Hok). unfold heads. now rewrite map_length. }
         assert (Hlive : exists s x, nth_error (heads st) s = Some (Some x)) by (apply live_of_total; lia).
-        pose proof (g_min _ _ _ _ _ Hok _ _ _ Hrep Hlive) as W.
+        pose proof (g_min _ _ _ _ _ _ Hok _ _ _ Hrep Hlive) as W.
         destruct (winner_mstep _ _ _ W) as (x & r & Hx & MS).
         unfold take_from. rewrite Hx. pose proof (total_upd _ _ _ _ Hx) as Tot.
         set (t := gt_init b (heads st)) in *.
@@ -144,7 +153,21 @@ Section Loops.
     Variable ut_min : UT -> option nat.
     Variable ut_dmi : UT -> A -> UT.
     Variable urep : bool -> UT -> A -> list A -> Prop.
-    Hypothesis Hok : utree_ok ltb ut_init ut_min ut_dmi urep.
+    Variable usize : nat -> Prop.
+    Variable ukey : A -> A -> Prop.
+    Hypothesis Hok : utree_ok ltb usize ukey ut_init ut_min ut_dmi urep.
+
+    (** every element of every sequence may be handed to the tree *)
+    Definition keys_ok (sen : A) (st : state) : Prop := forall l x, In l st -> In x l -> ukey sen x.
+
+    Lemma keys_ok_upd sen (st : state) s x r : keys_ok sen st -> nth_error st s = Some (x :: r) -> keys_ok sen (upd s r st).
+    Proof.
+      intros Hk Hn l y Hl Hy. apply In_nth_error in Hl. destruct Hl as (t & Ht).
+      destruct (Nat.eq_dec s t) as [<-|Ne].
+      - rewrite nth_error_upd_eq in Ht by (apply nth_error_Some; congruence). inversion Ht; subst.
+        apply (Hk (x :: l) y); [eapply nth_error_In; eauto|now right].
+      - rewrite nth_error_upd_neq in Ht by exact Ne. apply (Hk l y); auto. eapply nth_error_In; eauto.
+    Qed.
 
     (** The heads as a list of elements (all sequences non-empty). *)
     Lemma all_heads_spec (st : state) hs : all_heads st = Some hs -> heads st = map Some hs.
@@ -182,10 +205,10 @@ Section Loops.
     Lemma ut_loop_ok b sen n : forall t src (st : state) hs,
       urep b t sen hs -> ut_min t = Some src -> src < length st ->
       (forall h, hd_error (nth src st []) = Some h -> heads st = map Some (upd src h hs)) ->
-      ugood_run b sen n st ->
+      ugood_run b sen n st -> keys_ok sen st ->
       exists o st', ut_loop UT ut_min ut_dmi n t src st = Some (o, st') /\ mrun b st o st' /\ length o = n.
     Proof.
-      induction n as [|n IH]; intros t src st hs Hrep Hsrc Lsrc Hh Hg.
+      induction n as [|n IH]; intros t src st hs Hrep Hsrc Lsrc Hh Hg Hk.
       - exists [], st. split; [reflexivity|]. split; [constructor|reflexivity].
       - cbn [ut_loop].
         destruct (Hg [] st (mrun_nil _ _ _) ltac:(simpl; lia)) as [Hne (s0 & x0 & r0 & Hs0 & Hb0)].
@@ -194,8 +217,10 @@ Section Loops.
           destruct (nth src st []) as [|h ?]; [exfalso; now apply Hne|]. simpl; eauto. }
         destruct Hhd as (h & Eh). rewrite Eh. specialize (Hh h Eh).
         set (hs1 := upd src h hs) in *. set (t1 := ut_dmi t h).
-        assert (Hrep1 : urep b t1 sen hs1) by (apply (u_dmi _ _ _ _ _ Hok); auto).
-        destruct (u_min _ _ _ _ _ Hok _ _ _ _ Hrep1) as (s & Es & W).
+        assert (Hrep1 : urep b t1 sen hs1).
+        { apply (u_dmi _ _ _ _ _ _ _ Hok); auto. apply (Hk (nth src st []) h); [now apply nth_In|].
+          destruct (nth src st []); simpl in Eh; [discriminate|]. inversion Eh; now left. }
+        destruct (u_min _ _ _ _ _ _ _ Hok _ _ _ _ Hrep1) as (s & Es & W).
         { exists s0, x0. split; auto.
           assert (E : nth_error (heads st) s0 = Some (Some x0)) by (apply heads_live; eauto).
           rewrite Hh, nth_error_map in E. destruct (nth_error hs1 s0); simpl in E; congruence. }
@@ -207,6 +232,7 @@ Section Loops.
         + now rewrite length_upd.
         + intros h' Eh'. rewrite nth_upd_eq in Eh' by exact Ls. rewrite heads_upd, Eh', Hh. now rewrite map_upd.
         + eapply ugood_run_step; eauto.
+        + eapply keys_ok_upd; eauto.
         + rewrite E. exists (x :: o), st'. split; [reflexivity|]. split; [econstructor; eauto|simpl; lia].
     Qed.
 
@@ -214,10 +240,11 @@ Section Loops.
     Theorem merge_lt_unguarded_correct b (l0 : list A) (st : state) sz sen :
       last_error l0 = Some sen -> Forall (fun l => l <> []) (l0 :: st) ->
       sz <= total (l0 :: st) -> ugood_run b sen sz (l0 :: st) ->
+      usize (length (l0 :: st)) -> keys_ok sen (l0 :: st) ->
       exists o st', merge_lt_unguarded UT ut_init ut_min ut_dmi b (l0 :: st) sz = Some (o, st') /\
                     mrun b (l0 :: st) o st' /\ length o = sz.
     Proof.
-      intros Hsen Hne Hsz Hg. unfold merge_lt_unguarded. rewrite Hsen.
+      intros Hsen Hne Hsz Hg Hus Hk. unfold merge_lt_unguarded. rewrite Hsen.
       destruct (all_heads_nonempty _ Hne) as (hs & Ehs). rewrite Ehs.
       pose proof (all_heads_spec _ _ Ehs) as Hh.
       rewrite Nat.min_r by exact Hsz.
@@ -225,8 +252,14 @@ Section Loops.
       - exists [], (l0 :: st). split; [reflexivity|]. split; [constructor|reflexivity].
       - destruct (Hg [] _ (mrun_nil _ _ _) ltac:(simpl; lia)) as [_ (s0 & x0 & r0 & Hs0 & Hb0)].
         set (t := ut_init b sen hs).
-        assert (Hrep : urep b t sen hs) by apply (u_init _ _ _ _ _ Hok).
-        destruct (u_min _ _ _ _ _ Hok _ _ _ _ Hrep) as (s & Es & W).
+        assert (Hrep : urep b t sen hs).
+        { apply (u_init _ _ _ _ _ _ _ Hok).
+          - assert (E : length (heads (l0 :: st)) = length (map Some hs)) by now rewrite Hh.
+            unfold heads in E. rewrite !map_length in E. now rewrite <- E.
+          - apply Forall_forall. intros h Hin. apply In_nth_error in Hin. destruct Hin as (i & Ei).
+            assert (E : nth_error (heads (l0 :: st)) i = Some (Some h)) by (rewrite Hh, nth_error_map, Ei; reflexivity).
+            apply heads_live in E. destruct E as (r & E). apply (Hk (h :: r) h); [eapply nth_error_In; eauto|now left]. }
+        destruct (u_min _ _ _ _ _ _ _ Hok _ _ _ _ Hrep) as (s & Es & W).
         { exists s0, x0. split; auto.
           assert (E : nth_error (heads (l0 :: st)) s0 = Some (Some x0)) by (apply heads_live; eauto).
           rewrite Hh, nth_error_map in E. destruct (nth_error hs s0); simpl in E; congruence. }
@@ -238,6 +271,7 @@ Section Loops.
         + now rewrite length_upd.
         + intros h' Eh'. rewrite nth_upd_eq in Eh' by exact Ls. rewrite heads_upd, Eh', Hh. now rewrite map_upd.
         + eapply ugood_run_step; eauto.
+        + eapply keys_ok_upd; eauto.
         + rewrite E. exists (x :: o), st'. split; [reflexivity|]. split; [econstructor; eauto|simpl; lia].
     Qed.
   End Unguarded.
